@@ -465,6 +465,11 @@ func runC09(res *hx.Result, rng *hx.Rng, tier string, outdir string) {
 		if !o.ok {
 			return
 		}
+		// an accepted input is a string of the grammar: its printed form with white space between tokens
+		if stripWS(in) != o.printed {
+			res.Fail("accepts-outside-grammar", fmt.Sprintf("%s input %q is accepted although it is not a signature of the grammar (it prints as %q)",
+				origin, in, o.printed))
+		}
 		o2 := observeSig(o.printed)
 		if o2.crashed != "" || !o2.ok || o2.printed != o.printed {
 			res.Fail("fixed-point", fmt.Sprintf("%s input %q accepted and printed as %q; parsing that gives ok=%v printed=%q crash=%q",
@@ -497,8 +502,14 @@ func runC09(res *hx.Result, rng *hx.Rng, tier string, outdir string) {
 	// --- 1. generated signatures ---
 	var valid []*gty
 	for i := 0; i < nGen; i++ {
-		d := 1 + rng.Intn(maxDepth)
+		d := 2 + rng.Intn(maxDepth-1)
+		if rng.Chance(0.08) {
+			d = 1
+		}
 		t := genType(rng, d, false)
+		for try := 0; d > 1 && t.kind == 's' && try < 4; try++ {
+			t = genType(rng, d, false)
+		}
 		sig := t.print()
 		if len(sig) > 400 {
 			i--
